@@ -28,7 +28,7 @@ ASSUMPTIONS = [
 ALPHA = ["a", " ", ":", "\r", "\n", "\x0b", "\x0c", "\x1c", "\x1d", "\x1e", "\x85", "\u2028", "\u2029"]
 MAXLEN = {"quick": 3, "thorough": 4}
 EXTRA = ["", ":", " ", "  x", ":x", "x:y", "data: x", "\r\n", "a\r\nb", "a\n\nb", "\n", "\na", "é", "中 文", "\U0001F600", "a\r", "a\r\n", "\r\r", "id: 5", "retry: 1"]
-MENU = [{"data": "one"}, {"event": "e", "data": "two\nlines"}, {"id": "7", "data": "a\u2028b"}, {"retry": 1500}, {"event": "only"}, {}]
+MENU = [{"data": "one"}, {"event": "e", "data": "two\nlines"}, {"id": "7", "data": "a\u2028b"}, {"retry": 1500}, {"event": "only"}, {}, {"retry": 0}, {"id": "", "data": "x"}, {"event": "tick", "data": "1"}, {"event": "tick"}]
 
 
 def expected_block(ev):
@@ -41,6 +41,8 @@ def judge_event(ev, blocks):
         return f"{len(blocks)} blocks instead of 1"
     b = blocks[0]
     exp = expected_block(ev)
+    if "id" in ev and "\0" in str(ev["id"]):
+        exp["id"] = None
     if b["event"] != exp["event"] or b["id"] != exp["id"] or b["retry"] != exp["retry"]:
         return f"fields (event,id,retry)=({b['event']!r},{b['id']!r},{b['retry']!r}) expected ({exp['event']!r},{exp['id']!r},{exp['retry']!r})"
     if "data" in ev:
@@ -57,10 +59,12 @@ def judge_event(ev, blocks):
 
 def subsets():
     keys = ["event", "id", "retry"]
-    vals = {"event": "ev", "id": "i:1", "retry": 3000}
-    for n in range(4):
-        for c in itertools.combinations(keys, n):
-            yield {k: vals[k] for k in c}
+    for vals in ({"event": "ev", "id": "i:1", "retry": 3000}, {"event": "0", "id": "", "retry": 0}):
+        for n in range(4):
+            for c in itertools.combinations(keys, n):
+                if n == 0 and vals["retry"] == 0:
+                    continue
+                yield {k: vals[k] for k in c}
 
 
 def shards(tier, seed):
@@ -169,6 +173,22 @@ def wsgi_threads(r, n, timeouts, tier):
             r.violation("wsgi-threads:" + p[0], w, f"WSGI SendEventResponse over {n} events with {npings} ping(s), schedule {o['trace'][-12:]}: {p[1]}")
 
     dfs(lambda prefix: c06.run_wsgi_sse(prefix, n, None, None, False, timeouts), on_exec, bound=1 if tier == "quick" else 2)
+    if n == 1 and timeouts == 1:
+        # one response object (re-iterable source) serving two overlapping requests: each client gets the complete stream
+        def on_shared(x):
+            r.count("evaluations")
+            r.count("traces")
+            r.count("transitions", len(x.choices))
+            o = x.obs
+            w = {"kind": "wsgi_threads_shared", "n": n, "schedule": list(x.choices)}
+            if o["deadlock"] or o["watchdog"] or o["livelock"]:
+                r.violation("wsgi-threads:stuck", w, f"two overlapping requests on one WSGI SendEventResponse object, schedule {o['trace'][-12:]}: stuck")
+                return
+            for k, got in enumerate([o["got"]] + [x_["got"] for x_ in o["others"]], 1):
+                p = judge_stream(events, b"".join(got), "utf-8")
+                if p:
+                    r.violation("wsgi-threads:shared-" + p[0], w, f"two overlapping requests on one WSGI SendEventResponse object, schedule {o['trace'][-12:]}: client {k}: {p[1]}")
+        dfs(lambda prefix: c06.run_wsgi_sse(prefix, n, None, None, False, 0, None, False, 2, True), on_shared, bound=1)
     r.count("states", len(outcomes))
     r.sample({"wsgi_threads": {"events": n, "ping_timeouts": timeouts, "preemption_bound": 1 if tier == "quick" else 2}})
 
@@ -204,7 +224,7 @@ def run_asgi(prefix, events):
 def asgi_sequences(r, k, tier="thorough"):
     seqs = [seq for n in range(0, 4) for seq in itertools.product(range(len(MENU)), repeat=n)]
     if tier == "quick":
-        seqs = [q for q in seqs if len(q) <= 2] + [(0, 1, 2), (3, 4, 0), (1, 1, 1), (4, 3, 2), (0, 5, 1), (5, 5, 2)]
+        seqs = [q for q in seqs if len(q) <= 2] + [(0, 1, 2), (3, 4, 0), (1, 1, 1), (4, 3, 2), (0, 5, 1), (5, 5, 2), (8, 9, 8), (0, 5, 5), (6, 7, 6)]
     for seq in seqs[k::8]:
         events = [dict(MENU[i]) for i in seq]
         outcomes = set()
@@ -276,6 +296,12 @@ def replay(w):
         ev = dict(w["event"])
         data = ev.pop("data", None)
         check_one(r, data, ev, w["charset"])
+    elif w["kind"] == "wsgi_threads_shared":
+        from . import c06
+        x = c06.run_wsgi_sse(list(w["schedule"]), w["n"], None, None, False, 0, None, False, 2, True)
+        events = [{"data": str(i)} for i in range(w["n"])]
+        probs = [judge_stream(events, b"".join(g), "utf-8") for g in [x.obs["got"]] + [y["got"] for y in x.obs["others"]]]
+        return bool(any(probs) or x.obs["deadlock"]), {"problems": probs, "deadlock": x.obs["deadlock"]}
     elif w["kind"] == "wsgi_threads":
         from . import c06
         x = c06.run_wsgi_sse(list(w["schedule"]), w["n"], None, None, False, w["timeouts"])
